@@ -440,7 +440,7 @@ Lemma ev_all_intro t r d tl o older :
         | _, _ => true
         end = true) ->
   ev_C11 e t r d tl = true ->
-  match o with Loop l c cr => if c =? 0 then is_panic r else loop_shape_ok l r && loop_panic_ok cr r | _ => true end = true ->
+  match o with Loop l c cr => if c =? 0 then is_chunkzero r else loop_shape_ok l r && loop_panic_ok cr r | _ => true end = true ->
   ev_all t r d tl = true.
 Proof.
   intros Hs H2 H3 H4a H4b H4c H5 H6 H11 H12.
@@ -476,7 +476,7 @@ Definition null_pair (o : op) (r : res) : bool :=
   | BufNew c, RPanic _ [] => c =? 0
   | BufNew c, RUnit => true
   | (BufDrop | Skip), RUnit => true
-  | Loop _ c _, RPanic _ [] => c =? 0
+  | Loop _ c _, RPanic k [] => (c =? 0) && is_chunkzero (RPanic k [])
   | Loop _ c _, RLoop [] => negb (c =? 0)
   | _, _ => false
   end.
@@ -504,7 +504,7 @@ Proof.
   - destruct o, r; cbn [null_pair] in Hp; try discriminate; try reflexivity;
       try (destruct rs; try discriminate).
     + destruct (c =? 0); [discriminate Hp|reflexivity].
-    + destruct (c =? 0); [reflexivity|discriminate Hp].
+    + destruct (c =? 0); [exact Hp|discriminate Hp].
 Qed.
 
 (** ** the call point *)
@@ -606,7 +606,7 @@ Proof.
       - destruct (t_buf (c_pool c t)); [discriminate|]. injection E as <- <- <-. reflexivity.
       - injection E as <- <- <-. reflexivity.
       - destruct (N.eqb_spec c0 0); [|destruct (c0 =? 1); discriminate].
-        injection E as <- <- <-. cbn [null_pair]. apply N.eqb_eq; assumption. }
+        injection E as <- <- <-. cbn [null_pair is_chunkzero]. rewrite andb_true_r. apply N.eqb_eq; assumption. }
     assert (Hr : wf_buf b /\ res_cover e r = [] /\ is_end r = false /\ o <> Skip).
     { unfold call_res in E. destruct o; cbn [wf_op] in Hwo; try discriminate.
       - destruct (e_kind e); try discriminate Hk; discriminate.
@@ -862,16 +862,14 @@ Proof.
   - rewrite (Hone v eq_refl). eexists _, _. split; [reflexivity|].
     destruct (reports_idx v); cbn [map one_res is_end is_panic res_cover res_taken len_answer res_runs forallb];
       (split; [reflexivity|split; [reflexivity|split; [reflexivity|]]]);
-      (split; [unfold run_idx_ok; cbn [strip_idx mk_run r_idx r_cnt r_val]; rewrite ?N.eqb_refl, ?orb_true_r; reflexivity|]);
+      (split; [rewrite andb_true_r; try apply run_idx_ok_strip; apply run_idx_ok_at; [reflexivity|intros _; pose proof (Hone v eq_refl); lia]|]);
       (split; [intros k [X|X]; discriminate X|]); exists 0; (split; [lia|]);
       rewrite ?run_iv_strip, run_iv_at by assumption; unfold led_split; cbn [N.eqb N.ltb N.compare N.sub app drops_iv map];
       (split; [f_equal; f_equal; lia|]); (split; [reflexivity|]); intros _; f_equal; f_equal; lia.
   - eexists _, _. split; [reflexivity|]. unfold chunk_res at 1 2 3 4. cbn [is_end is_panic len_answer res_runs].
     split; [reflexivity|split; [reflexivity|split; [reflexivity|]]].
     split; [|split].
-    + cbn [runs_take]. destruct (N.min k cnt =? 0); [reflexivity|]. cbn [mk_run r_cnt].
-      destruct (cnt <=? N.min k cnt); cbn [runs_take forallb]; unfold run_idx_ok; cbn [mk_run r_idx r_cnt r_val];
-        rewrite ?N.eqb_refl, ?orb_true_r; reflexivity.
+    + apply runs_take_idx_ok. apply idx_ok_one. intros _. exact Hcl.
     + intros k' [X|X]; [|discriminate X]. injection X as <-. apply chunk_ok_at; assumption.
     + exists (N.min k cnt). split; [lia|]. unfold chunk_res. cbn [res_cover res_taken]. split; [apply cover_chunk; [assumption|lia]|].
       split; [intros Ho; apply not_owning_drops_after; assumption|].
@@ -881,9 +879,7 @@ Proof.
       (eexists _, _; split; [reflexivity|]; unfold chunk_res at 1 2 3 4; cbn [is_end is_panic len_answer res_runs];
        split; [reflexivity|split; [reflexivity|split; [reflexivity|]]];
        split; [|split];
-       [ cbn [runs_take]; destruct (N.min k cnt =? 0); [reflexivity|]; cbn [mk_run r_cnt];
-         destruct (cnt <=? N.min k cnt); cbn [runs_take forallb]; unfold run_idx_ok; cbn [mk_run r_idx r_cnt r_val];
-         rewrite ?N.eqb_refl, ?orb_true_r; reflexivity
+       [ apply runs_take_idx_ok; apply idx_ok_one; intros _; exact Hcl
        | intros k' [X|X]; [discriminate X|]; injection X as <-; apply chunk_ok_at; assumption
        | exists (N.min k cnt); split; [lia|]; unfold chunk_res; cbn [res_cover res_taken]; split; [apply cover_chunk; [assumption|lia]|];
          split; [intros Ho; apply not_owning_drops_after; assumption|];
@@ -892,7 +888,7 @@ Proof.
 Qed.
 
 Lemma loop_invoke_cases l crash done b cnt :
-  b < e_len e -> 1 <= cnt ->
+  b < e_len e -> 1 <= cnt -> b + cnt <= e_len e ->
   exists inv pan, loop_invoke l crash done [mk_run (Some b) (val_of e b) cnt] cnt = (inv, pan) /\
     forallb (run_idx_ok e) inv = true /\ forallb (shape_ok l) inv = true /\
     match pan with
@@ -900,28 +896,30 @@ Lemma loop_invoke_cases l crash done b cnt :
     | Some used => 1 <= used /\ used <= cnt /\ map (run_iv e) inv = [(b, used)]
     end.
 Proof using.
-  intros Hb Hc. unfold loop_invoke.
+  intros Hb Hc Hcl. unfold loop_invoke.
   set (shape := match l with LEnum => fun r => r | _ => strip_idx end).
   assert (Hshape : forall r, run_iv e (shape r) = run_iv e r) by (intros r; unfold shape; destruct l; reflexivity).
-  assert (Hok : forall c', run_idx_ok e (shape (mk_run (Some b) (val_of e b) c')) = true
+  assert (Hok : forall c', c' <= cnt -> run_idx_ok e (shape (mk_run (Some b) (val_of e b) c')) = true
                         /\ shape_ok l (shape (mk_run (Some b) (val_of e b) c')) = true).
-  { intros c'. unfold shape, run_idx_ok, shape_ok, strip_idx, mk_run. destruct l; cbn [r_idx r_cnt r_val];
-      rewrite ?N.eqb_refl, ?orb_true_r; split; reflexivity. }
-  assert (Hone : forall c', forallb (run_idx_ok e) (map shape [mk_run (Some b) (val_of e b) c']) = true
+  { intros c' Hc'. split.
+    - assert (Hr : run_idx_ok e (mk_run (Some b) (val_of e b) c') = true) by (apply run_idx_ok_at; [reflexivity|intros _; lia]).
+      unfold shape. destruct l; try exact Hr; apply run_idx_ok_strip; exact Hr.
+    - unfold shape, shape_ok, strip_idx, mk_run. destruct l; reflexivity. }
+  assert (Hone : forall c', c' <= cnt -> forallb (run_idx_ok e) (map shape [mk_run (Some b) (val_of e b) c']) = true
                          /\ forallb (shape_ok l) (map shape [mk_run (Some b) (val_of e b) c']) = true).
-  { intros c'. cbn [map forallb]. destruct (Hok c') as [-> ->]. split; reflexivity. }
+  { intros c' Hc'. cbn [map forallb]. destruct (Hok c' Hc') as [-> ->]. split; reflexivity. }
   destruct crash as [k|].
   - destruct (N.leb_spec done k) as [H1|H1]; cbn [andb].
     + destruct (N.ltb_spec k (done + cnt)) as [H2|H2].
       * eexists _, _. split; [reflexivity|].
         rewrite runs_take_one by lia.
-        destruct (Hone (k - done + 1)) as [-> ->]. split; [reflexivity|split; [reflexivity|]]. split; [lia|]. split; [lia|].
+        destruct (Hone (k - done + 1)) as [-> ->]; [lia|]. split; [reflexivity|split; [reflexivity|]]. split; [lia|]. split; [lia|].
         cbn [map]. rewrite Hshape, run_iv_at by assumption. reflexivity.
-      * eexists _, _. split; [reflexivity|]. destruct (Hone cnt) as [-> ->]. split; [reflexivity|split; [reflexivity|]].
+      * eexists _, _. split; [reflexivity|]. destruct (Hone cnt) as [-> ->]; [lia|]. split; [reflexivity|split; [reflexivity|]].
         cbn [map]. rewrite Hshape, run_iv_at by assumption. reflexivity.
-    + eexists _, _. split; [reflexivity|]. destruct (Hone cnt) as [-> ->]. split; [reflexivity|split; [reflexivity|]].
+    + eexists _, _. split; [reflexivity|]. destruct (Hone cnt) as [-> ->]; [lia|]. split; [reflexivity|split; [reflexivity|]].
       cbn [map]. rewrite Hshape, run_iv_at by assumption. reflexivity.
-  - eexists _, _. split; [reflexivity|]. destruct (Hone cnt) as [-> ->]. split; [reflexivity|split; [reflexivity|]].
+  - eexists _, _. split; [reflexivity|]. destruct (Hone cnt) as [-> ->]; [lia|]. split; [reflexivity|split; [reflexivity|]].
     cbn [map]. rewrite Hshape, run_iv_at by assumption. reflexivity.
 Qed.
 
@@ -1115,7 +1113,7 @@ Proof.
     + (* inside a loop *)
       destruct (loop_ops _ _ _ _ _ Hres Ctx) as (cc & -> & Hcc).
       unfold deliver_loop.
-      destruct (loop_invoke_cases l crash (total_cnt (t_acc (c_pool c t))) b cnt Hlt Hc1) as (inv & pan & Eli & Hi1 & Hi2 & Hinv). rewrite Eli.
+      destruct (loop_invoke_cases l crash (total_cnt (t_acc (c_pool c t))) b cnt Hlt Hc1 Hcl) as (inv & pan & Eli & Hi1 & Hi2 & Hinv). rewrite Eli.
       destruct pan as [used|].
       * (* the closure panics: the loop returns *)
         destruct Hinv as (Hu1 & Hu2 & Hinv).
